@@ -67,22 +67,23 @@ Section Final.
     {| eo_strict := true; eo_ascii_single := false; eo_sf_quote := 0; eo_binary_literal := false; eo_indent := [32; 32] |}.
 
   Theorem readback_default : forall x, value_leaf_item x = true -> dom_item false quote_plain x = true ->
-    forall input pre ws ws' c rest',
-      Forall is_ws ws -> Forall is_ws ws' -> follow c ->
+    forall input dp pre ws ws' c rest',
+      dp <= max_list_depth -> Forall is_ws ws -> Forall is_ws ws' -> follow c ->
       input = pre ++ ws ++ encode_default ffmt quote x ++ ws' ++ c :: rest' ->
       exists x' q,
-        parse_item fparse input 1 (mkst pre (ws ++ encode_default ffmt quote x ++ ws' ++ c :: rest'))
+        parse_item fparse input 1 dp (mkst pre (ws ++ encode_default ffmt quote x ++ ws' ++ c :: rest'))
         = POk x' (mkst q (c :: rest')) /\ input = q ++ c :: rest' /\ item_eqv narrow32 x x'.
   Proof.
-    intros x VL D input pre ws ws' c rest' Fws Fws' Fc Hin.
+    intros x VL D input dp pre ws ws' c rest' Hdp Fws Fws' Fc Hin.
     assert (Ho : opts_ok strict_default = true) by reflexivity.
     pose proof (reads_all false ffmt quote fparse quote_plain narrow32 ffmt_good float_roundtrip quote_law
                   strict_default Ho input x D) as RB.
     assert (E : enc_body (write_strict_ascii_gen false) ffmt quote strict_default O x = encode_default ffmt quote x).
     { destruct x; try discriminate; reflexivity. }
-    unfold reads_back in RB. specialize (RB 1%nat O pre ws ws' c rest').
+    unfold reads_back in RB. specialize (RB 1%nat dp O pre ws ws' c rest').
     rewrite E in RB. apply RB; try assumption.
-    destruct x; try discriminate; cbn [depth]; lia.
+    - destruct x; try discriminate; cbn [depth]; lia.
+    - destruct x; try discriminate; cbn [depth]; lia.
   Qed.
 End Final.
 
@@ -106,4 +107,24 @@ Proof.
   intros ffmt quote fparse Q. eexists.
   unfold encode_msg, encode_msg_w, msg_nbsp, m_body. cbn [encode_item_w]. rewrite Q.
   vm_compute. reflexivity.
+Qed.
+
+(** finding C13-depth-cap: since fix 95562b6 (C14) the parser refuses list nesting beyond
+    secs2.MaxListDepth = 64, while the encoder renders any depth. Witness: 65 nested lists around
+    an empty binary item — an item of the grammar in every other respect; the strict parser
+    rejects its strict text with the nesting error. 64 levels are read back (Properties/C13.v). *)
+Fixpoint nest (n : nat) (x : item) : item :=
+  match n with O => x | S k => IList [nest k x] end.
+
+Definition msg_deep (n : nat) : msg :=
+  {| m_stream := 1; m_function := 1; m_wbit := false; m_body := nest n (IBinary []) |}.
+
+Theorem encode_parse_depth_refuted :
+  forall ffmt quote fparse quote_plain,
+    opts_ok strict_opts0 = true /\
+    dom_item true quote_plain (m_body (msg_deep 65)) = true /\ depth (m_body (msg_deep 65)) = 65%nat /\
+    exists off, parse_strict fparse (encode_msg ffmt quote strict_opts0 (msg_deep 65)) = PErr PE_Depth off.
+Proof.
+  intros. split; [reflexivity|]. split; [vm_compute; reflexivity|]. split; [vm_compute; reflexivity|].
+  eexists. vm_compute. reflexivity.
 Qed.
